@@ -106,6 +106,10 @@ type InterfaceCollection struct {
 	outPkgName  string
 	interfaces  []*config.Interface
 	template    string
+	// config is the resolved config of the first mock added to the collection.
+	// The per-file parameters (template-schema, require-template-schema-exists,
+	// formatter, force-file-write) are taken from it.
+	config *config.Config
 }
 
 func NewInterfaceCollection(
@@ -114,6 +118,7 @@ func NewInterfaceCollection(
 	srcPkg *packages.Package,
 	outPkgName string,
 	templ string,
+	conf *config.Config,
 ) *InterfaceCollection {
 	return &InterfaceCollection{
 		srcPkgPath:  srcPkgPath,
@@ -122,6 +127,7 @@ func NewInterfaceCollection(
 		outPkgName:  outPkgName,
 		interfaces:  make([]*config.Interface, 0),
 		template:    templ,
+		config:      conf,
 	}
 }
 
@@ -283,6 +289,7 @@ func (r *RootApp) Run() error {
 					iface.Pkg,
 					*ifaceConfig.PkgName,
 					*ifaceConfig.Template,
+					ifaceConfig,
 				)
 			}
 			if err := mockFileToInterfaces[filePath.String()].Append(
@@ -318,11 +325,11 @@ func (r *RootApp) Run() error {
 			fileCtx,
 			interfacesInFile.srcPkg,
 			interfacesInFile.outFilePath.Parent(),
-			*packageConfig.Config.Template,
-			*packageConfig.Config.TemplateSchema,
-			*packageConfig.Config.RequireTemplateSchemaExists,
+			interfacesInFile.template,
+			*interfacesInFile.config.TemplateSchema,
+			*interfacesInFile.config.RequireTemplateSchemaExists,
 			remoteTemplateCache,
-			pkg.Formatter(*r.Config.Formatter),
+			pkg.Formatter(*interfacesInFile.config.Formatter),
 			packageConfig.Config,
 			interfacesInFile.outPkgName,
 		)
@@ -353,9 +360,9 @@ func (r *RootApp) Run() error {
 			fileLog.Err(err).Msg("can't determine if outfile exists")
 			return fmt.Errorf("determining if outfile exists: %w", err)
 		}
-		verifhook.Emit("Exists", "file", outFilePath, "exists", outFileExists, "force", *packageConfig.Config.ForceFileWrite)
-		if outFileExists && !*packageConfig.Config.ForceFileWrite {
-			fileLog.Error().Bool("force-file-write", *packageConfig.Config.ForceFileWrite).Msg("output file exists, can't write mocks")
+		verifhook.Emit("Exists", "file", outFilePath, "exists", outFileExists, "force", *interfacesInFile.config.ForceFileWrite)
+		if outFileExists && !*interfacesInFile.config.ForceFileWrite {
+			fileLog.Error().Bool("force-file-write", *interfacesInFile.config.ForceFileWrite).Msg("output file exists, can't write mocks")
 			return fmt.Errorf("outfile exists")
 		}
 
